@@ -51,6 +51,23 @@ Opaque objects (("coq", T)) through primitives of the spec: truth value "<T>.__b
 "<T>.__setitem__" (receiver-mutating), `for x in o` "<T>.__iter__" (a list), `{}` where T is expected: consts["{}"];
 `t[k]` for a tuple type and a literal k; `"..%s..%s.." % (a, b)` with str arguments; Fun.join_defines (opt-in): a variable first
 assigned on every path through an if/else is defined after it; regex_text resolves `re.compile(NAME + "literal")`.
+Fun.alias_state (opt-in, method mode): `x = self.attr` as a second name of the list held in a state attribute (_alias_stmt:
+x is read as self.attr while the alias cannot come apart); a loop body may change the list being iterated over when it
+`break`s at once (_mut_then_break).
+Objects with assignable attributes in local variables (an opaque type with setters "<T>.@attr=": obj -> value -> obj):
+`obj.attr = e`, by value under an ownership discipline (_owned_object: only obj.attr / obj = <call> / L.append(obj); _consume:
+the name — and a list/dict stored into an attribute — is undefined once handed over, until rebound; join points drop such
+names); `L[i].m(args)` for a receiver-mutating m on an element of a list (_mut_item_stmt); a loop in a branch of an if with a
+join point (continuation parameter, like a nested loop); `k in d` on a dict with str keys; `assert`; `x = y` between lists when
+every in-place change precedes it (_alias_after_mutations); self.m(a, name=b) for translated methods (keywords in parameter
+order) and @staticmethod helpers reached through self.
+A dict with a fixed set of str keys as an opaque record: "<T>.__getitem__"/"<T>.__setitem__" given as a LIST of renderings, one per
+asserted ("literal", …) key (_by_literal_key); a dict literal with constant keys: the constructor "<T>.{}" (Call.kw = the keys);
+`"..%s..%s.." % t` for t of a tuple type of str; `o == s` / truth value of an Optional[str] expression (tr_opt_str_eqb,
+tr_opt_nonempty on a subscript); `map(F, L)` (F a lambda or rendered by the spec) as a comprehension: as the last argument of a
+rendering marked Call.exhausts (str.join), or pure where the map object is certainly consumed once (_lazy_map_ok).
+A primitive on a HIDDEN state (_hidden_state, e.g. the number of warnings emitted: warnings.warn) may be called inside an expression
+(StM prelude entries, rendered by swrap) and inside a comprehension, whose elements are then produced on the threaded state (tr_mapS).
 """
 import ast
 import os
@@ -66,6 +83,7 @@ ERR = {"ValueError": "ValueError", "KeyError": "KeyError", "TypeError": "TypeErr
        "AssertionError": "AssertionError", "NotImplementedError": "NotImplementedError",
        "StopIteration": "StopIteration", "ArError": "DebError", "DebError": "DebError", "IOError": "IOError",
        "OSError": "IOError", "ChangelogParseError": "ParseError",
+       "ChangelogCreateError": "OtherError",    # Changelog/Model.v: opt_or_err (no kind of its own; err_kind says OtherError too)
        "EOFError": "OtherError"}     # no kind of its own in Lib/Base.err: harness.core.err_kind reports it as OtherError too
 
 
@@ -153,6 +171,10 @@ class Call:
     # variables, an exception propagates with the state the primitive returns.  For operations on the object
     # itself that are not methods of the translated class: `setattr(self, name, v)`, `super().__setattr__(..)`.
     stateprim = False
+    # exhausts (set after construction): the callee takes EVERY element of an iterable given as its last argument
+    # before it does anything else observable (str.join does).  Enables `f(.., map(F, L))` with an F that may raise
+    # (FunTr._arg): the lazy map object is then evaluated at once, as a list.
+    exhausts = False
 
     def __init__(self, coq, args, ret, monadic=False, mutates=False):
         self.coq, self.args, self.ret, self.monadic = coq, list(args), ret, monadic
@@ -193,6 +215,13 @@ class Fun:
         # the group; the tie lemma proves it suffices.
         self.rec_group = None
         self.rec_fuel = None
+        # alias_state (opt-in, METHOD MODE): {"x": "self.attr"} — the statement `x = self.attr` (attr a state
+        # attribute holding a list) makes the local name x ANOTHER NAME OF THE SAME LIST OBJECT, which is then changed
+        # in place through x.  Rendered by reading x as self.attr in the rest of the block (FunTr._alias_stmt checks
+        # that the alias cannot come apart: x is never rebound, self.attr is only re-assigned x itself, no method
+        # of the object runs meanwhile, x is not used outside that block).  With the attribute set, any other
+        # `y = self.attr` on a list-valued state attribute of which y or the attribute is changed in place fails closed.
+        self.alias_state = {}
 
 
 class Module:
@@ -299,9 +328,19 @@ class E:
         self.pre, self.text, self.ty = pre, text, ty
 
 
+class StM(str):
+    """The bound term of a prelude entry that is a call RUNNING ON AND CHANGING the object's state (METHOD MODE; text of
+    type `mres T <state tuple>`, see FunTr._call / the comprehension with tr_mapS).  Only FunTr.swrap renders it (it
+    rebinds the state variables for everything that is evaluated after it); every other consumer of a prelude goes
+    through `wrap`, which fails closed on it."""
+
+
 def wrap(pre, body):
     out = body
     for v, m in reversed(pre):
+        if isinstance(m, StM):
+            _bad("a call that changes the object's state inside an expression that is evaluated conditionally "
+                 "(short-circuit, conditional expression) or outside method mode")
         out = "(do %s <- %s; %s)" % (v, m, out)
     return out
 
@@ -355,8 +394,27 @@ class FunTr:
             return wrap(pre, body)
         out = body
         for v, m in reversed(pre):
+            if isinstance(m, StM):
+                # a call on the object's state inside the expression: what is evaluated after it sees the new state
+                stv, ev = self.tmp(), self.tmp()
+                out = "(match %s with MOk %s %s => let '%s := %s in %s | MErr %s %s => MErr %s %s end)" % (
+                    m, v, stv, self.st_tuple(), stv, out, ev, stv, ev, stv)
+                continue
             out = "(match %s with Ok %s => %s | Err e__ => MErr e__ %s end)" % (m, v, out, self.st_tuple())
         return out
+
+    def _hidden_state(self):
+        """Every state variable stands for something the translated code cannot name (its "source text" is not a
+        Python expression, e.g. "<warnings emitted>"): only primitives on the state read or change it.  Then a call
+        on the state may stand INSIDE an expression: no pure part of the expression reads the state, so rebinding
+        the state variables at the call cannot reorder a read."""
+        for a, _, _ in self.fun.state:
+            try:
+                ast.parse(a, mode="eval")
+                return False
+            except SyntaxError:
+                pass
+        return self.method
 
     def tmp(self):
         self.ntmp += 1
@@ -407,9 +465,15 @@ class FunTr:
         """A test in boolean position -> E of type bool (prelude possible)."""
         if isinstance(n, ast.BoolOp):
             saved_tmp = self.ntmp
+            # (`x is None or x == s`: the comparison of the Optional variable x with a str is left to the narrowing
+            #  below, as it always was — _compare does not render it while x stands here)
+            nar0 = self._narrow(n.values[0], env) if len(n.values) >= 2 else None
+            saved_noeq = getattr(self, "_no_opt_eq", None)
+            self._no_opt_eq = nar0[0] if nar0 and nar0[1] == isinstance(n.op, ast.Or) else saved_noeq
             try:
                 parts = [self.cond(v, env) for v in n.values]
             except ExtractError:
+                self._no_opt_eq = saved_noeq
                 # `x is None or P(x)` / `x is not None and P(x)` on an option-typed variable: P is evaluated only
                 # when x is not None, so x has its inner type there.  Tried only when the plain rendering fails.
                 nar = self._narrow(n.values[0], env) if len(n.values) >= 2 else None
@@ -429,6 +493,7 @@ class FunTr:
                         self._narrow_scrut(n.values[0], name), short, cname(name), wrap(r.pre, "Ok %s" % r.text)))], t, "bool")
                 return E([], "(match %s with None => %s | Some %s => %s end)" % (
                     self._narrow_scrut(n.values[0], name), short, cname(name), r.text), "bool")
+            self._no_opt_eq = saved_noeq
             op = "&&" if isinstance(n.op, ast.And) else "||"
             if all(not p.pre for p in parts[1:]):
                 return E(parts[0].pre, "(" + (" %s " % op).join(p.text for p in parts) + ")", "bool")
@@ -449,6 +514,11 @@ class FunTr:
         if isinstance(n, ast.Attribute) and ast.unparse(n) in self.stattr and isinstance(e.ty, tuple) \
                 and e.ty[0] == "option" and (e.ty[1] == "str" or (isinstance(e.ty[1], tuple) and e.ty[1][0] == "list")):
             # truth value of an optional str/list STATE ATTRIBUTE (never narrowed): None and the empty value are falsy
+            return E(e.pre, "(tr_opt_nonempty %s)" % e.text, "bool")
+        if isinstance(n, ast.Subscript) and isinstance(e.ty, tuple) and e.ty[0] == "option" \
+                and (e.ty[1] == "str" or (isinstance(e.ty[1], tuple) and e.ty[1][0] == "list")):
+            # truth value of an optional str/list read by a subscript `o[k]` (an expression: nothing to narrow):
+            # None and the empty value are falsy
             return E(e.pre, "(tr_opt_nonempty %s)" % e.text, "bool")
         return E(e.pre, self.truthy(e, n), "bool")
 
@@ -529,6 +599,22 @@ class FunTr:
             if not n.keys and isinstance(want, tuple) and want[0] == "coq" and self.mod.consts.get("{}", (None, None))[1] == want:
                 # the empty dict literal where an opaque type is expected: the spec's constant "{}" of that type
                 return E([], self.mod.consts["{}"][0], want)
+            g = self.mod.calls.get("<%s>.{}" % want[1]) if isinstance(want, tuple) and want[0] == "coq" else None
+            if n.keys and isinstance(g, Call) and not g.mutates and g.kw is not None and len(g.kw) == len(g.args) \
+                    and g.ret == want:
+                # a dict literal with constant str keys where an opaque type is expected: the spec's constructor
+                # "<type>.{}", whose parameter names (Call.kw) must be exactly the keys, in the order written; the
+                # values are evaluated in that order (the keys are constants)
+                keys = [k.value if isinstance(k, ast.Constant) and isinstance(k.value, str) else None for k in n.keys]
+                if None in keys or len(set(keys)) != len(keys) or keys != list(g.kw):
+                    _bad("dict literal with the keys %r; the constructor \"<%s>.{}\" takes %r" % (keys, want[1], g.kw), n)
+                es = [self.expr(v_, env, w) for v_, w in zip(n.values, g.args)]
+                app = " ".join([g.coq] + [coerce(e.text, e.ty, w, n) for e, w in zip(es, g.args)])
+                pre = sum((e.pre for e in es), [])
+                if g.monadic:
+                    t = self.tmp()
+                    return E(pre + [(t, app)], t, want)
+                return E(pre, "(%s)" % app, want)
             if n.keys or not (isinstance(want, tuple) and want[0] == "dict"):
                 _bad("only the empty dict literal, for a variable declared (\"dict\", \"str\", V)", n)
             ty_coq(want)
@@ -577,7 +663,7 @@ class FunTr:
                 return E(base.pre, "(let '(%s) := %s in %s)" % (", ".join(ps), base.text, ps[kk]), base.ty[1 + kk])
             if isinstance(base.ty, tuple) and base.ty[0] == "coq":
                 # obj[k] on an opaque object: the spec's primitive "<type>.__getitem__" (two arguments, not mutating)
-                g = self.mod.calls.get("<%s>.__getitem__" % base.ty[1])
+                g = self._by_literal_key(self.mod.calls.get("<%s>.__getitem__" % base.ty[1]), n.slice)
                 if not (isinstance(g, Call) and len(g.args) == 2 and not g.mutates):
                     _bad("subscript of %r needs \"<%s>.__getitem__\" of two arguments" % (base.ty, base.ty[1]), n)
                 kx = self.expr(n.slice, env, g.args[1])
@@ -619,6 +705,12 @@ class FunTr:
                     cname(g.target.id), " && ".join(c.text for c in conds), it.text), ("list", ety))
             body = self.expr(n.elt, env2)
             x = cname(g.target.id)
+            if any(isinstance(m_, StM) for _, m_ in body.pre) and self._hidden_state():
+                # the element expression calls a primitive on the (hidden) state: the elements are produced in order,
+                # each on the state its predecessor left (tr_mapS); an exception ends it with the state reached
+                t = self.tmp()
+                fn = "(fun '%s %s => %s)" % (self.st_tuple(), x, self.swrap(body.pre, self.ok(body.text)))
+                return E(it.pre + [(t, StM("tr_mapS %s %s %s" % (fn, it.text, self.st_tuple())))], t, ("list", body.ty))
             if body.pre:
                 t = self.tmp()
                 return E(it.pre + [(t, "tr_mapM (fun %s => %s) %s" % (x, wrap(body.pre, "Ok %s" % body.text), it.text))],
@@ -653,6 +745,21 @@ class FunTr:
         if isinstance(t, tuple) and t[0] in ("list", "iter"):
             return t[1]
         _bad("cannot iterate over %r" % (t,), node)
+
+    @staticmethod
+    def _by_literal_key(g, key_node):
+        """`o[k]` / `o[k] = v` on an opaque object whose spec entry is a LIST of renderings, one per asserted key
+        (second parameter of type ("literal", <source text of the key>, …), e.g. a dict with a fixed set of str keys
+        whose values have different types): the rendering whose literal is the source text of `k`; None if there is
+        none (the caller fails closed).  A single rendering is returned as it is."""
+        if not isinstance(g, (list, tuple)):
+            return g
+        src = ast.unparse(key_node)
+        for cand in g:
+            if isinstance(cand, Call) and len(cand.args) >= 2 and isinstance(cand.args[1], tuple) \
+                    and cand.args[1][0] == "literal" and cand.args[1][1] == src:
+                return cand
+        return None
 
     def _binop(self, n, env, want):
         if isinstance(n.op, ast.Mod) and isinstance(n.left, ast.Constant) and isinstance(n.left.value, str) \
@@ -701,6 +808,18 @@ class FunTr:
             lit = n.left.value
             cps = lambda s: "[" + "; ".join("%d" % ord(c) for c in s) + "]%N"   # noqa: E731
             return E(pre, "(%s ++ %s ++ %s)" % (cps(lit[:lit.index("%s")]), b.text, cps(lit[lit.index("%s") + 2:])), "str")
+        if isinstance(n.op, ast.Mod) and isinstance(n.left, ast.Constant) and isinstance(n.left.value, str) \
+                and isinstance(b.ty, tuple) and b.ty[0] == "tuple" and all(t == "str" for t in b.ty[1:]) \
+                and n.left.value.count("%") == len(b.ty) - 1 and n.left.value.count("%s") == len(b.ty) - 1:
+            # "<literal whose only directives are %s>" % <a value of a tuple type of str…>, as many as directives: the
+            # tuple's elements are the arguments (a tuple on the right of % is never ONE argument); cannot raise
+            parts = n.left.value.split("%s")
+            cps = lambda s: "[" + "; ".join("%d" % ord(c) for c in s) + "]%N"   # noqa: E731
+            ps = ["pj%d_" % j for j in range(len(b.ty) - 1)]
+            pieces = [cps(parts[0])]
+            for p_, q_ in zip(ps, parts[1:]):
+                pieces += [p_, cps(q_)]
+            return E(pre, "(let '(%s) := %s in %s)" % (", ".join(ps), b.text, " ++ ".join(pieces)), "str")
         _bad("operator %s on %r and %r" % (type(n.op).__name__, a.ty, b.ty), n)
 
     def _compare(self, n, env):
@@ -748,6 +867,9 @@ class FunTr:
                 elif a.ty == "str" and b.ty == ("list", "str"):
                     # a str in a list/tuple of str held in a constant of the spec (e.g. a class-level tuple)
                     txt = "(tr_str_in %s %s)" % (a.text, b.text)
+                elif a.ty == "str" and isinstance(b.ty, tuple) and b.ty[0] == "dict" and len(b.ty) == 3 and b.ty[1] == "str":
+                    # k in d for a dict with str keys (association list): is there an entry under k
+                    txt = "(tr_is_some (tr_dict_get %s %s))" % (b.text, a.text)
                 else:
                     _bad("membership of %r in %r" % (a.ty, b.ty), n)
             return E(a.pre, "(negb %s)" % txt if neg else txt, "bool")
@@ -766,6 +888,11 @@ class FunTr:
                 txt = "(str_eqb %s %s)" % (coerce(a.text, ta, "str"), coerce(b.text, tb, "str"))
             elif ta == "bool" and tb == "bool":
                 txt = "(Bool.eqb %s %s)" % (a.text, b.text)
+            elif ta == ("option", "str") and tb == "str" \
+                    and not (isinstance(n.left, ast.Name) and n.left.id == getattr(self, "_no_opt_eq", None)):
+                # an Optional[str] against a str: None is equal to no str.  (Not for the variable x of an enclosing
+                # `x is None or …` / `x is not None and …`: there x is narrowed, see cond.)
+                txt = "(tr_opt_str_eqb %s %s)" % (a.text, b.text)
             else:
                 _bad("== on %r and %r" % (ta, tb), n)
             return E(pre, "(negb %s)" % txt if isinstance(op, ast.NotEq) else txt, "bool")
@@ -855,13 +982,108 @@ class FunTr:
             slots.append(k.value)
         return slots
 
-    def _arg(self, a, env, w):
+    def _arg(self, a, env, w, cand=None, last=False):
         """An argument of a call rendered through the spec.  A generator expression written directly as the argument
         is consumed by the callee alone: it is evaluated eagerly, as a list — unobservable only if producing its
-        elements is pure (no exception, no effect), which is required."""
+        elements is pure (no exception, no effect), which is required.
+        `map(F, L)` written directly as the argument (_map_as_comp) likewise; its elements MAY raise when it is the
+        LAST argument of a rendering marked `exhausts` (the spec vouches that the callee takes every element before it
+        does anything else observable, e.g. str.join): then the first exception comes out of the call either way."""
         if isinstance(a, ast.GeneratorExp):
             return self.pure(ast.copy_location(ast.ListComp(elt=a.elt, generators=a.generators), a), env, w)
+        if self._is_map(a):
+            comp = self._map_as_comp(a)
+            if last and cand is not None and getattr(cand, "exhausts", False):
+                return self.expr(comp, env, w)
+            return self.pure(comp, env, w)
         return self.expr(a, env, w)
+
+    def _is_map(self, a):
+        return isinstance(a, ast.Call) and isinstance(a.func, ast.Name) and a.func.id == "map" \
+            and "map" not in self.mod.calls and "map" not in self.decl
+
+    def _map_as_comp(self, a):
+        """`map(F, L)` as the comprehension [F(x) for x in L] (x fresh) / [BODY for x in L] for F = `lambda x: BODY`.
+        F must be a lambda of one plain parameter or an expression whose source text is a key of the spec's calls
+        (a function that the spec renders).  The map object is lazy; where this is used the caller has made sure
+        that evaluating it at once is unobservable."""
+        if len(a.args) != 2 or a.keywords or any(isinstance(x, ast.Starred) for x in a.args):
+            _bad("only map(<function>, <one iterable>)", a)
+        f, it = a.args
+        if isinstance(f, ast.Lambda):
+            la = f.args
+            if len(la.args) != 1 or la.vararg or la.kwarg or la.kwonlyargs or la.posonlyargs or la.defaults:
+                _bad("map with a lambda that does not take exactly one plain parameter", a)
+            var, elt = la.args[0].arg, f.body
+        elif ast.unparse(f) in self.mod.calls:
+            var = self.tmp()
+            elt = ast.Call(func=f, args=[ast.Name(id=var, ctx=ast.Load())], keywords=[])
+        else:
+            _bad("map of %s: not a lambda and not a function that the spec renders" % ast.unparse(f), a)
+        comp = ast.ListComp(elt=elt, generators=[ast.comprehension(
+            target=ast.Name(id=var, ctx=ast.Store()), iter=it, ifs=[], is_async=0)])
+        for m in ast.walk(comp):
+            if not hasattr(m, "lineno"):
+                ast.copy_location(m, a)
+        return ast.fix_missing_locations(ast.copy_location(comp, a))
+
+    def _lazy_map_ok(self, n):
+        """Is evaluating `map(F, L)` (node n, in value position) at once, as a list, unobservable?  Yes when F is a
+        function the spec renders (no lambda: nothing it closes over can change), no name in L is mutated in place
+        anywhere in the function, and the map object is consumed exactly once: it is the iterable of a for statement /
+        of the first generator of a comprehension, or it is bound by `x = map(F, L)` to a name that is assigned once
+        and read once, as such an iterable, outside every loop, comprehension, lambda and nested function.  (The caller
+        requires the elements to be pure, so interleaving with the consumer's body does not matter.)"""
+        if len(n.args) != 2 or isinstance(n.args[0], ast.Lambda):
+            return False
+        parents = {}
+        for p in ast.walk(self.node):
+            for c in ast.iter_child_nodes(p):
+                parents[id(c)] = p
+        mutated = set()
+        for m in ast.walk(self.node):
+            if isinstance(m, ast.Call) and isinstance(m.func, ast.Attribute) and isinstance(m.func.value, ast.Name) \
+                    and m.func.attr in ("append", "pop", "extend", "insert", "sort", "reverse", "remove", "clear"):
+                mutated.add(m.func.value.id)
+            if isinstance(m, (ast.Assign, ast.AugAssign, ast.Delete)):
+                for t in (m.targets if not isinstance(m, ast.AugAssign) else [m.target]):
+                    if isinstance(t, ast.Subscript) and isinstance(t.value, ast.Name):
+                        mutated.add(t.value.id)
+        if any(isinstance(m, ast.Name) and m.id in mutated for m in ast.walk(n.args[1])):
+            return False
+
+        def consumer(u):
+            """the for statement / comprehension that iterates over node u, if u stands in that position"""
+            pu = parents.get(id(u))
+            if isinstance(pu, ast.For) and pu.iter is u:
+                return pu
+            if isinstance(pu, ast.comprehension) and pu.iter is u:
+                comp = parents.get(id(pu))
+                if isinstance(comp, (ast.ListComp, ast.GeneratorExp)) and comp.generators[0] is pu:
+                    return comp
+            return None
+        if consumer(n) is not None:
+            return True
+        par = parents.get(id(n))
+        if not (isinstance(par, ast.Assign) and par.value is n and len(par.targets) == 1
+                and isinstance(par.targets[0], ast.Name)):
+            return False
+        x = par.targets[0].id
+        occ = [m for m in ast.walk(self.node) if isinstance(m, ast.Name) and m.id == x]
+        loads = [m for m in occ if isinstance(m.ctx, ast.Load)]
+        if len(occ) != 2 or len(loads) != 1 or x in [a_.arg for a_ in self.node.args.args]:
+            return False
+        anchor = consumer(loads[0])
+        if anchor is None:
+            return False
+        for q in (par, anchor):
+            q = parents.get(id(q))
+            while q is not None and q is not self.node:
+                if isinstance(q, (ast.For, ast.While, ast.ListComp, ast.GeneratorExp, ast.SetComp, ast.DictComp,
+                                  ast.Lambda, ast.FunctionDef, ast.comprehension, ast.Try)):
+                    return False
+                q = parents.get(id(q))
+        return True
 
     def _call(self, n, env, want):
         key = ast.unparse(n.func)
@@ -870,6 +1092,18 @@ class FunTr:
         if key in self.mod.calls:
             alts = self.mod.calls[key]
             alts = alts if isinstance(alts, (list, tuple)) else [alts]
+            if len(alts) == 1 and alts[0].stateprim and not alts[0].selfmethod and self._hidden_state() \
+                    and not n.keywords and len(n.args) == len(alts[0].args) \
+                    and not any(isinstance(a_, ast.Starred) for a_ in n.args):
+                # a primitive on a HIDDEN state (_hidden_state) called inside an expression: a prelude entry that
+                # swrap renders by threading the state (StM); arguments are evaluated first, left to right
+                c = alts[0]
+                es = [self.expr(a_, env, w) for a_, w in zip(n.args, c.args)]
+                texts = [coerce(e.text, e.ty, w, n) for e, w in zip(es, c.args)]
+                app = " ".join([c.coq] + [cname(g_) for g_, _ in self.fun.ghost]
+                               + [cname(v_) for _, v_, _ in self.fun.state] + texts)
+                t = self.tmp()
+                return E(sum((e.pre for e in es), []) + [(t, StM(app))], t, c.ret)
             if any(getattr(a_, "selfmethod", None) or getattr(a_, "stateprim", False) for a_ in alts):
                 _bad("a call of a method of the same object (%s) is only supported as a statement "
                      "`x = self.m(..)` / `self.m(..)`" % key, n)
@@ -885,7 +1119,8 @@ class FunTr:
                     errs.append("%s expects %d arguments" % (key, len(cand.args)))
                     continue
                 try:
-                    es = [self._arg(a, env, w) for a, w in zip(n_args, cand.args)]
+                    es = [self._arg(a, env, w, cand, i_ == len(n_args) - 1)
+                          for i_, (a, w) in enumerate(zip(n_args, cand.args))]
                     texts = [coerce(e.text, e.ty, w, n) for e, w in zip(es, cand.args)]
                     c = cand
                     break
@@ -922,7 +1157,8 @@ class FunTr:
                             errs.append("arity")
                             continue
                         try:
-                            es = [recv] + [self._arg(a, env, w) for a, w in zip(n.args, cand.args[1:])]
+                            es = [recv] + [self._arg(a, env, w, cand, i_ == len(n.args) - 1)
+                                           for i_, (a, w) in enumerate(zip(n.args, cand.args[1:]))]
                             texts = [coerce(e.text, e.ty, w, n) for e, w in zip(es, cand.args)]
                         except ExtractError as ex:
                             errs.append(str(ex))
@@ -934,6 +1170,14 @@ class FunTr:
                             return E(pre + [(t, app)], t, cand.ret)
                         return E(pre, "(%s)" % app, cand.ret)
                     _bad("no rendering of %s fits: %s" % (mkey, "; ".join(errs)), n)
+        if self._is_map(n):
+            # map(F, L) in value position: the lazy map object as the list of its elements — only for a pure F that
+            # the spec renders, and only where the object is certainly consumed exactly once (_lazy_map_ok)
+            if not self._lazy_map_ok(n):
+                _bad("map(..) here: only `for`/comprehension over it, or `x = map(F, L)` with x used once, as the "
+                     "iterable of a for/comprehension outside any loop; F rendered by the spec; L not mutated in place", n)
+            e = self.pure(self._map_as_comp(n), env, want)
+            return E([], e.text, e.ty)
         if key == "enumerate" and len(n.args) == 1:
             e = self.expr(n.args[0], env)
             return E(e.pre, "(tr_enumerate %s)" % e.text, ("list", ("tuple", "Z", self._elem_ty(e.ty, n))))
@@ -1008,12 +1252,103 @@ class FunTr:
                             k.endswith("." + n.func.attr) and any(c.mutates for c in (v if isinstance(v, (list, tuple)) else [v]))
                             for k, v in self.mod.calls.items() if k.startswith("<")):
                         add(rv.id)
+                    elif isinstance(rv, ast.Subscript) and any(
+                            k.endswith("." + n.func.attr) and any(c.mutates for c in (v if isinstance(v, (list, tuple)) else [v]))
+                            for k, v in self.mod.calls.items() if k.startswith("<")):
+                        # L[i].m(..) with a receiver-mutating m: the element is changed in place, i.e. L is (_mut_item_stmt)
+                        if isinstance(rv.value, ast.Attribute) and ast.unparse(rv.value) in self.stattr:
+                            add(self.stattr[ast.unparse(rv.value)])
+                        elif isinstance(rv.value, ast.Name):
+                            add(rv.value.id)
+                    for a_ in n.args:       # an owned object handed over to a container: the name is gone (_consume)
+                        if isinstance(a_, ast.Name) and self._owned_type(self.decl.get(a_.id)):
+                            add(a_.id)
+                if isinstance(n, ast.Assign) and len(n.targets) == 1 and isinstance(n.targets[0], ast.Attribute) \
+                        and isinstance(n.targets[0].value, ast.Name) and self._owned_type(self.decl.get(n.targets[0].value.id)) \
+                        and isinstance(n.value, ast.Name):
+                    add(n.value.id)         # obj.attr = y: a mutable y is handed over to the object (_consume)
                 if isinstance(n, ast.Call) and self._selfcall(n) is not None:
                     for _, v_, _ in self.fun.state:          # a method of the same object may change every attribute
                         add(v_)
                 if isinstance(n, (ast.Yield, ast.YieldFrom)):
                     add("out__")
         return out
+
+    # objects with assignable attributes held in local variables ------------------------------------------------------
+    def _owned_type(self, t):
+        """An opaque type ("coq", T) for which the spec gives attribute setters ("<T>.@name=": obj -> value -> obj): a
+        mutable object.  A local variable of such a type is rendered by VALUE, which is faithful only while the object
+        has one name: _owned_object checks the uses syntactically, _consume takes the name away when the object is
+        put into a container."""
+        return isinstance(t, tuple) and t[0] == "coq" and any(
+            k.startswith("<%s>.@" % t[1]) and k.endswith("=") for k in self.mod.calls)
+
+    def _mutated_set(self):
+        """Names of lists/dicts/buffers that the function changes in place somewhere (as in translate())."""
+        if "_mutated" not in self.__dict__:
+            mutated = set()
+            for m in ast.walk(self.node):
+                if isinstance(m, ast.Call) and isinstance(m.func, ast.Attribute) and isinstance(m.func.value, ast.Name) \
+                        and m.func.attr in ("append", "pop", "extend", "insert", "write", "sort", "reverse", "remove", "clear"):
+                    mutated.add(m.func.value.id)
+                if isinstance(m, (ast.Assign, ast.AugAssign)):
+                    for t in (m.targets if isinstance(m, ast.Assign) else [m.target]):
+                        if isinstance(t, ast.Subscript) and isinstance(t.value, ast.Name):
+                            mutated.add(t.value.id)
+            self._mutated = mutated
+        return self._mutated
+
+    def _owned_object(self, obj, node):
+        """Every use of the local `obj` (an object whose attributes are assigned) is `obj.attr` / `obj.m(..)`,
+        `obj = <call>` (a fresh object) or `L.append(obj)` as a statement (which takes the name away): it never gets a
+        second name, so rendering it by value is faithful."""
+        done = self.__dict__.setdefault("_owned_ok", set())
+        if obj in done:
+            return
+        if obj not in self.fun.locals:
+            _bad("%r: only a local variable can hold an object whose attributes are assigned" % obj, node)
+        allowed = set()
+        for m in ast.walk(self.node):
+            if isinstance(m, ast.Attribute) and isinstance(m.value, ast.Name) and m.value.id == obj:
+                allowed.add(id(m.value))
+            if isinstance(m, ast.Assign) and len(m.targets) == 1 and isinstance(m.targets[0], ast.Name) \
+                    and m.targets[0].id == obj and isinstance(m.value, ast.Call):
+                allowed.add(id(m.targets[0]))
+            if isinstance(m, ast.Expr) and isinstance(m.value, ast.Call) and isinstance(m.value.func, ast.Attribute) \
+                    and m.value.func.attr == "append" and len(m.value.args) == 1 and not m.value.keywords \
+                    and isinstance(m.value.args[0], ast.Name) and m.value.args[0].id == obj:
+                allowed.add(id(m.value.args[0]))
+        for m in ast.walk(self.node):
+            if isinstance(m, ast.Name) and m.id == obj and id(m) not in allowed:
+                _bad("the object %r, whose attributes are assigned, is used other than as `%s.attr`, `%s = <call>` or "
+                     "`L.append(%s)`: it could get a second name" % (obj, obj, obj, obj), m)
+        done.add(obj)
+
+    def _consume(self, value, env, node, into_object):
+        """A value that is stored into a container / an object attribute.  If it is a bare local NAME of a mutable
+        thing — an owned object, or (into_object) a list/dict/buffer that the function changes in place — the container
+        now holds THE SAME object: the name is taken out of the environment (a later use before it is rebound fails
+        closed; join points and loop back-edges require it to be rebound on every path)."""
+        if isinstance(value, ast.Attribute) and ast.unparse(value) in self.stattr:
+            t = self.decl.get(self.stattr[ast.unparse(value)])
+            if into_object and (t == "strbuf" or (isinstance(t, tuple) and t[0] in ("list", "iter", "dict", "coq"))):
+                _bad("a mutable state attribute is stored into an object: two names of one object", node)
+            return env
+        if not (isinstance(value, ast.Name) and value.id in env):
+            return env
+        t = self.decl.get(value.id)
+        owned = self._owned_type(t)
+        if owned:
+            self._owned_object(value.id, node)
+        inplace = into_object and (t == "strbuf" or (isinstance(t, tuple) and t[0] in ("list", "iter", "dict"))) \
+            and value.id in self._mutated_set()
+        if not (owned or inplace):
+            return env
+        if value.id not in self.fun.locals:
+            _bad("%r is handed over to a container but is not a local variable" % value.id, node)
+        env2 = dict(env)
+        del env2[value.id]
+        return env2
 
     def falls_through(self, stmts):
         """Conservative: False only when the block certainly ends in return/raise/continue/break."""
@@ -1154,6 +1489,10 @@ class FunTr:
             if len(s.targets) != 1:
                 _bad("multiple assignment targets", s)
             t = s.targets[0]
+            if isinstance(t, ast.Name) and isinstance(s.value, ast.Attribute) and ast.unparse(s.value) in self.stattr \
+                    and getattr(self.fun, "alias_state", {}).get(t.id) == ast.unparse(s.value):
+                # x = self.attr declared as an alias (Fun.alias_state): x is read as self.attr in the rest of the block
+                return self.block(self._alias_stmt(s, rest), env, k, ctx)
             if isinstance(t, ast.Attribute) and self.mod.attr_hooks.get(ast.unparse(t), (None, None))[1]:
                 # an attribute served by __setattr__ (Module.attr_hooks): the assignment IS the statement
                 # <setter>("<name>", value)
@@ -1226,7 +1565,7 @@ class FunTr:
                     # obj[k] = v on an opaque object (a variable or, in method mode, a state variable): the spec's
                     # receiver-mutating primitive "<type>.__setitem__" : obj -> k -> v -> (unit * obj') [result of it].
                     # Python evaluates v, then obj, then k, then calls __setitem__.
-                    cand = self.mod.calls.get("<%s>.__setitem__" % oty[1])
+                    cand = self._by_literal_key(self.mod.calls.get("<%s>.__setitem__" % oty[1]), t.slice)
                     if isinstance(cand, Call) and cand.selfmethod:
                         # … or, when obj IS the object of a method in METHOD MODE (its one state variable, source text
                         # = variable name, e.g. state=[("self", "self", T)]) and "<T>.__setitem__" is a translated method
@@ -1270,6 +1609,20 @@ class FunTr:
                 tmpn = self.tmp()
                 return self.swrap(v.pre + i.pre + [(tmpn, "tr_set_index %s %s %s" % (cname(obj), i.text, coerce(v.text, v.ty, oty[1], s)))],
                             "(let %s := %s in %s)" % (cname(obj), tmpn, nxt(env)))
+            if isinstance(t, ast.Attribute) and isinstance(t.value, ast.Name) and t.value.id in env \
+                    and self._owned_type(env[t.value.id]):
+                # obj.attr = e on a local object of an opaque type with setters ("<T>.@attr=": obj -> value -> obj, pure).
+                # Python evaluates e first; the store itself cannot raise (a plain attribute: the spec author's claim).
+                obj, oty = t.value.id, env[t.value.id]
+                g = self.mod.calls.get("<%s>.@%s=" % (oty[1], t.attr))
+                if not (isinstance(g, Call) and len(g.args) == 2 and not g.monadic and not g.mutates
+                        and same_repr(g.ret, g.args[0])):
+                    _bad("no setter \"<%s>.@%s=\" (object -> value -> object) in the spec" % (oty[1], t.attr), s)
+                self._owned_object(obj, s)
+                v = self.expr(s.value, env, g.args[1])
+                env2 = self._consume(s.value, env, s, True)
+                return self.swrap(v.pre, "(let %s := %s %s %s in %s)" % (
+                    cname(obj), g.coq, coerce(cname(obj), oty, g.args[0], s), coerce(v.text, v.ty, g.args[1], s), nxt(env2)))
             _bad("assignment target %s" % ast.unparse(t), s)
         if isinstance(s, ast.AugAssign):
             if isinstance(s.target, ast.Attribute) and ast.unparse(s.target) in self.stattr:
@@ -1296,6 +1649,9 @@ class FunTr:
             mc = self._mutating(s.value, env)
             if mc is not None:
                 return self._mut_stmt(mc, None, env, nxt, s)
+            mi = self._mutating_item(s.value, env)
+            if mi is not None:
+                return self._mut_item_stmt(mi, env, nxt, s)
         if isinstance(s, ast.Expr) and isinstance(s.value, ast.Call) and isinstance(s.value.func, ast.Attribute) \
                 and isinstance(s.value.func.value, ast.Name) and s.value.func.value.id in env:
             obj, meth, args = s.value.func.value.id, s.value.func.attr, s.value.args
@@ -1315,6 +1671,16 @@ class FunTr:
             return self._for(s, rest, env, k, ctx)
         if isinstance(s, ast.Try):
             return self._try(s, rest, env, k, ctx)
+        if isinstance(s, ast.Assert):
+            # assert c[, msg]  is  `if not c: raise AssertionError(msg)`  (the interpreter does not run with -O)
+            exc = ast.Call(func=ast.Name(id="AssertionError", ctx=ast.Load()),
+                           args=[s.msg] if s.msg is not None else [], keywords=[])
+            des = ast.If(test=ast.UnaryOp(op=ast.Not(), operand=s.test), body=[ast.Raise(exc=exc, cause=None)], orelse=[])
+            for m in ast.walk(des):
+                if not hasattr(m, "lineno"):
+                    ast.copy_location(m, s)
+            ast.fix_missing_locations(des)
+            return self.block([des] + list(rest), env, k, ctx)
         _bad("statement %s" % type(s).__name__, s)
 
     # kinds (Lib/Base.err) that `except <class>` certainly catches / may or may not catch.  A kind stands for several
@@ -1381,6 +1747,84 @@ class FunTr:
             pfx, body, stv, self.st_tuple(), stv, kk(env_st), ev, stv, self.st_tuple(), stv, ev, cases,
             "MErr %s %s" % (ev, self.st_tuple()))
 
+    def _alias_stmt(self, s, rest):
+        """`x = self.attr` with Fun.alias_state = {"x": "self.attr"} (METHOD MODE; attr a state attribute): from here on x
+        and self.attr are two names of ONE list object, which the code changes in place through x.  Values cannot
+        express that; but if the alias cannot come apart, x can simply be READ AS self.attr.  Returns the statements
+        that follow (`rest`) with every read of x replaced by self.attr and every `self.attr = x` (the same object
+        again: no effect) dropped.  Fails closed unless, in `rest`: x is never rebound/deleted; self.attr is
+        re-assigned only by `self.attr = x`; no method of the same object is called (it could rebind self.attr); no
+        nested function; and x occurs nowhere else in the function (so it is dead after this block)."""
+        import copy
+        x, attr = s.targets[0].id, ast.unparse(s.value)
+        if not self.method or self.mod.attr_hooks or x not in self.fun.locals:
+            _bad("alias %s = %s: needs method mode, no attribute hooks, and %s a declared local" % (x, attr, x), s)
+        count = lambda tree: sum(1 for m in ast.walk(tree) if isinstance(m, ast.Name) and m.id == x)   # noqa: E731
+        if count(self.node) != count(ast.Module(body=list(rest), type_ignores=[])) + 1:
+            _bad("the alias %s of %s is used outside the block that follows `%s = %s`" % (x, attr, x, attr), s)
+        outer = self
+
+        class Sub(ast.NodeTransformer):
+            def visit_Assign(self_, n):
+                if len(n.targets) == 1 and isinstance(n.targets[0], ast.Attribute) and ast.unparse(n.targets[0]) == attr \
+                        and isinstance(n.value, ast.Name) and n.value.id == x:
+                    return ast.copy_location(ast.Pass(), n)
+                return self_.generic_visit(n)
+
+            def visit_Attribute(self_, n):
+                if ast.unparse(n) == attr and not isinstance(n.ctx, ast.Load):
+                    _bad("%s is re-assigned while %s is another name of the list it holds" % (attr, x), n)
+                return self_.generic_visit(n)
+
+            def visit_Name(self_, n):
+                if n.id != x:
+                    return n
+                if not isinstance(n.ctx, ast.Load):
+                    _bad("%s is rebound while it is another name of the list in %s" % (x, attr), n)
+                new = ast.parse(attr, mode="eval").body
+                for m in ast.walk(new):
+                    ast.copy_location(m, n)
+                return new
+
+            def visit_Call(self_, n):
+                if outer._selfcall(n) is not None:
+                    _bad("a method of the same object is called while %s is another name of the list in %s" % (x, attr), n)
+                return self_.generic_visit(n)
+
+            def visit_FunctionDef(self_, n):
+                _bad("nested function while %s is another name of the list in %s" % (x, attr), n)
+
+            visit_Lambda = visit_AsyncFunctionDef = visit_FunctionDef
+
+        out = [Sub().visit(copy.deepcopy(st)) for st in rest]
+        for st in out:
+            ast.fix_missing_locations(st)
+        return out
+
+    def _mut_then_break(self, loop, nm):
+        """Every statement of the body of `loop` that may change `nm` (the list being iterated over) stands in a
+        statement list — not inside a nested loop — that ENDS in `break`, with no `continue` and no loop between it
+        and that break: the iteration is abandoned right after the change (the list iterator is never asked again),
+        so evaluating the iterable once, before the loop, is faithful."""
+        def ok_list(stmts):
+            for j, st in enumerate(stmts):
+                if nm not in self.assigned([st]):
+                    continue
+                if isinstance(st, ast.If):
+                    if not (ok_list(st.body) and ok_list(st.orelse)):
+                        return False
+                    continue
+                if not isinstance(st, (ast.Assign, ast.AugAssign, ast.Expr)):
+                    return False        # a nested loop, try, with … that changes nm
+                tail = stmts[j + 1:]
+                if not tail or not isinstance(tail[-1], ast.Break):
+                    return False
+                for t in tail:
+                    if any(isinstance(m, (ast.Continue, ast.For, ast.While, ast.Try, ast.With)) for m in ast.walk(t)):
+                        return False
+            return True
+        return ok_list(loop.body)
+
     def _hook_call(self, func_src, attr_node, extra):
         """The call `<func_src>("<attribute name>", *extra)` that an attribute read/assignment served by
         __getattr__/__setattr__ stands for (Module.attr_hooks)."""
@@ -1429,18 +1873,37 @@ class FunTr:
             _bad("%s: no translated method %s (%s) in this module / the caller is not in method mode"
                  % (ast.unparse(call.func), cand.selfmethod, cand.coq), node)
         f = fs[0]
-        if f.state != self.fun.state or f.ghost != self.fun.ghost or not f.skip_first or f.generator:
+        # (a @staticmethod reached through self — `self._parse_error(msg, strict)` — has no `self` parameter to skip;
+        #  translated in method mode it threads the same state, e.g. a global list of warnings)
+        static = any(isinstance(d_, ast.Name) and d_.id == "staticmethod"
+                     for d_ in find_def(self.mod.tree_, f.qual).decorator_list)
+        if f.state != self.fun.state or f.ghost != self.fun.ghost or not (f.skip_first or static) or f.generator:
             _bad("%s must be translated with the same ghost parameters and state as %s" % (f.qual, self.fun.qual), node)
         if [t for _, t in f.params] != list(cand.args) or f.ret != cand.ret:
             _bad("the rendering of %s does not have the parameter/return types of %s" % (ast.unparse(call.func), f.qual), node)
-        if call.keywords or len(call.args) > len(f.params) or any(isinstance(a, ast.Starred) for a in call.args):
+        if len(call.args) > len(f.params) or any(isinstance(a, ast.Starred) for a in call.args) \
+                or any(k_.arg is None for k_ in call.keywords):
             _bad("arguments of %s" % ast.unparse(call), node)
-        es = [self.expr(a, env, w) for a, w in zip(call.args, cand.args)]
-        texts = [coerce(e.text, e.ty, w, node) for e, w in zip(es, cand.args)]
+        # keyword arguments: by parameter name, after the positional ones and IN PARAMETER ORDER (then the textual
+        # order, which is Python's evaluation order, is the order of the slots)
+        pnames = [p for p, _ in f.params]
+        slots = dict(enumerate(call.args))
+        last = len(call.args) - 1
+        for k_ in call.keywords:
+            if k_.arg not in pnames or pnames.index(k_.arg) <= last:
+                _bad("keyword argument %r of %s: unknown, given twice, or out of parameter order" % (k_.arg, ast.unparse(call)), node)
+            last = pnames.index(k_.arg)
+            slots[last] = k_.value
         # arguments left out: the defaults as the callee's `def` has them NOW (constants: evaluated in an empty scope)
         dn = find_def(self.mod.tree_, f.qual).args
         dflt = dict(zip([x.arg for x in dn.args][len(dn.args) - len(dn.defaults):], dn.defaults))
-        for p, ty in f.params[len(call.args):]:
+        es, texts = [], []
+        for i_, (p, ty) in enumerate(f.params):
+            if i_ in slots:
+                e_ = self.expr(slots[i_], env, ty)
+                es.append(e_)
+                texts.append(coerce(e_.text, e_.ty, ty, node))
+                continue
             if p not in dflt:
                 _bad("%s: parameter %r is not given and has no default" % (ast.unparse(call), p), node)
             d = self.pure(dflt[p], {}, ty)
@@ -1516,6 +1979,9 @@ class FunTr:
         rv, rr = self.tmp(), self.tmp()
         env2 = dict(env)
         env2[var] = self.declared(var, node)
+        for a_ in argn:      # an owned object passed to the receiver (L.append(obj)): the container holds it now
+            if isinstance(a_, ast.Name) and a_.id != var:
+                env2 = self._consume(a_, env2, node, False)
         lets = "let %s := %s in " % (cname(var), coerce(rr, cand.args[0], self.declared(var, node), node))
         if target is not None:
             tty = self.declared(target, node)
@@ -1526,16 +1992,67 @@ class FunTr:
             return self.swrap(pre + [(pr, app)], "(let '(%s, %s) := %s in %s%s)" % (rv, rr, pr, lets, nxt(env2)))
         return self.swrap(pre, "(let '(%s, %s) := %s in %s%s)" % (rv, rr, app, lets, nxt(env2)))
 
+    def _mutating_item(self, call, env):
+        """`L[i].m(args)` where L is a list variable / state attribute whose elements have the opaque type T and the spec
+        declares "<T>.m" as a receiver-mutating method -> (cand, list variable, index node, argument nodes)."""
+        if not (isinstance(call, ast.Call) and isinstance(call.func, ast.Attribute) and not call.keywords
+                and isinstance(call.func.value, ast.Subscript) and not isinstance(call.func.value.slice, ast.Slice)):
+            return None
+        base = call.func.value.value
+        if isinstance(base, ast.Name) and base.id in env:
+            var = base.id
+        elif isinstance(base, ast.Attribute) and ast.unparse(base) in self.stattr:
+            var = self.stattr[ast.unparse(base)]
+        else:
+            return None
+        ty = env[var]
+        if not (isinstance(ty, tuple) and ty[0] == "list" and isinstance(ty[1], tuple) and ty[1][0] == "coq"):
+            return None
+        alts = self.mod.calls.get("<%s>.%s" % (ty[1][1], call.func.attr))
+        if alts is None:
+            return None
+        alts = alts if isinstance(alts, (list, tuple)) else [alts]
+        for cand in alts:
+            if cand.mutates and len(cand.args) == len(call.args) + 1:
+                return cand, var, call.func.value.slice, call.args
+        return None
+
+    def _mut_item_stmt(self, mi, env, nxt, node):
+        """L[i].m(args) as a statement: the element is read (IndexError), the method runs on it, and — the list holds
+        the only name of that object (owned objects, _consume) — the changed element is the element of L from then on.
+        Python evaluates L[i], then the arguments, then calls."""
+        cand, var, idxn, argn = mi
+        ety = env[var][1]
+        idx = self.expr(idxn, env, "Z")
+        if idx.ty != "Z":
+            _bad("index of type %r" % (idx.ty,), node)
+        el = self.tmp()
+        pre = idx.pre + [(el, "tr_index %s %s" % (cname(var), idx.text))]
+        es = [self._arg(a, env, w) for a, w in zip(argn, cand.args[1:])]
+        texts = [coerce(el, ety, cand.args[0], node)] + [coerce(e.text, e.ty, w, node) for e, w in zip(es, cand.args[1:])]
+        pre = pre + sum((e.pre for e in es), [])
+        app = "%s %s" % (cand.coq, " ".join(texts))
+        rv, rr, nl = self.tmp(), self.tmp(), self.tmp()
+        env2 = dict(env)
+        env2[var] = self.declared(var, node)
+        back = self.swrap([(nl, "tr_set_index %s %s %s" % (cname(var), idx.text, coerce(rr, cand.args[0], ety, node)))],
+                          "(let %s := %s in %s)" % (cname(var), coerce(nl, env[var], self.declared(var, node), node), nxt(env2)))
+        if cand.monadic:
+            pr = self.tmp()
+            return self.swrap(pre + [(pr, app)], "(let '(%s, %s) := %s in %s)" % (rv, rr, pr, back))
+        return self.swrap(pre, "(let '(%s, %s) := %s in %s)" % (rv, rr, app, back))
+
     # join points -------------------------------------------------------------
-    def join(self, env, assigned, k_after, narrowed=None, fresh=()):
+    def join(self, env, assigned, k_after, narrowed=None, fresh=(), gone=()):
         """Returns (prefix defining the join function, call(env_branch) -> text).
         narrowed: {variable: type} overriding the declared type (opt-in flow typing, see Fun.narrow).
-        fresh: variables not defined before that every incoming edge defines (opt-in, see Fun.join_defines)."""
-        vs = [v for v in self.order if v in assigned and (v in env or v in fresh)]
+        fresh: variables not defined before that every incoming edge defines (opt-in, see Fun.join_defines).
+        gone: variables that some incoming edge has handed over to a container (_consume): undefined afterwards."""
+        vs = [v for v in self.order if v in assigned and (v in env or v in fresh) and v not in gone]
         # variables assigned in the branches but not defined before are NOT visible afterwards (fail closed on use)
         self.njoin += 1
         name = "k%d_" % self.njoin
-        env_after = dict(env)
+        env_after = {v: t for v, t in env.items() if v not in gone}
         pty = {v: (narrowed or {}).get(v, self.declared(v)) for v in vs}
         for v in vs:
             env_after[v] = pty[v]
@@ -1576,22 +2093,38 @@ class FunTr:
                     brs = [(s.body, env), (s.orelse, env)]
                 ends = self._probe(brs, ctx)      # the environments at every normal end of either branch
                 fresh = tuple(v for v in asg if v not in env and v in self.decl and ends and all(v in e for e in ends))
-            pfx, call = self.join(env, asg, after, narrowed, fresh)
+            gone = ()
+            if any(self._owned_type(t_) for t_ in self.decl.values()):
+                # (functions with owned objects) a name that some branch hands over to a container and does not
+                # rebind is undefined after the if — and not a parameter of the join point
+                if nar:
+                    e_some = dict(env)
+                    e_some[nar[0]] = env[nar[0]][1]
+                    brs = [(s.body, env), (s.orelse, e_some)] if nar[1] else [(s.body, e_some), (s.orelse, env)]
+                else:
+                    brs = [(s.body, env), (s.orelse, env)]
+                ends = self._probe(brs, ctx)
+                gone = tuple(v for v in asg if v in env and any(v not in e for e in ends))
+            pfx, call = self.join(env, asg, after, narrowed, fresh, gone)
             kk = call
         else:
             pfx, kk = "", after
+        # a loop in a branch that ends in the join point: what follows the loop (the call of the let-bound join
+        # function) is not in scope inside the loop's top-level Fixpoint — it is passed as a continuation, as for
+        # a loop nested in a loop (_nested_exit)
+        ctx_b = dict(ctx, injoin=True) if pfx else ctx
         if nar:
             name, none_first = nar
             env_some = dict(env)
             env_some[name] = env[name][1]
             b_none, b_some = (s.body, s.orelse) if none_first else (s.orelse, s.body)
-            t_none = self.block(b_none, env, kk, ctx)
-            t_some = self.block(b_some, env_some, kk, ctx)
+            t_none = self.block(b_none, env, kk, ctx_b)
+            t_some = self.block(b_some, env_some, kk, ctx_b)
             return "(%smatch %s with None => %s | Some %s => %s end)" % (
                 pfx, self._narrow_scrut(s.test, name), t_none, cname(name), t_some)
         c = self.cond(s.test, env)
-        t_then = self.block(s.body, env, kk, ctx)
-        t_else = self.block(s.orelse, env, kk, ctx)
+        t_then = self.block(s.body, env, kk, ctx_b)
+        t_else = self.block(s.orelse, env, kk, ctx_b)
         return self.swrap(c.pre, "(%sif %s then %s else %s)" % (pfx, c.text, t_then, t_else))
 
     def _loop_sig(self, env, loop=None):
@@ -1617,7 +2150,7 @@ class FunTr:
         it as a continuation over the loop state instead (`kxN_`), passed as a lambda where the loop is entered.
         Returns (extra parameter text, text passed on a recursive call, exit(env) -> text, thunk: the lambda text).
         For a loop that is not nested everything is as before: ("", "", after, "")."""
-        if not ctx.get("cont"):
+        if not ctx.get("cont") and not ctx.get("injoin"):
             return "", "", after, (lambda: "")
         kn = "kx%d_" % idx
         if not vs:
@@ -1724,6 +2257,10 @@ class FunTr:
                              and ast.unparse(m.func) in self.mod.calls)
                 if uses == asrecv:
                     names.discard(nm)
+            if getattr(self.fun, "alias_state", None):
+                # (functions that opt in to alias_state) a state attribute in the iterable: its state variable counts too
+                names |= {self.stattr[ast.unparse(m)] for m in ast.walk(s.iter)
+                          if isinstance(m, ast.Attribute) and ast.unparse(m) in self.stattr}
             for nm in names & set(self.assigned(s.body)):
                 ok = (isinstance(s.iter, ast.Call) and ast.unparse(s.iter.func) == "enumerate" and len(s.iter.args) == 1
                       and isinstance(s.iter.args[0], ast.Name) and s.iter.args[0].id == nm
@@ -1745,6 +2282,8 @@ class FunTr:
                         if isinstance(m, ast.Call) and isinstance(m.func, ast.Attribute) and isinstance(m.func.value, ast.Name) \
                                 and m.func.value.id == nm and m.func.attr in ("append", "pop", "extend", "insert", "write"):
                             ok = False
+                if not ok and self._mut_then_break(s, nm):
+                    ok = True       # changed, then `break` at once: the iterator is never asked again
                 if not ok:
                     _bad("the loop body changes %r, which the loop iterates over" % nm, s)
             it = self.expr(s.iter, env)
@@ -1810,6 +2349,31 @@ class FunTr:
         self.defs.append(text)
         return self.swrap(it.pre, "(%s %s%s %s)" % (name, it.text, kxval(), args(env)))
 
+    def _alias_after_mutations(self, stmt, pair):
+        """`x = y` (stmt) between list names of which one is changed in place somewhere: harmless when every such
+        change happens BEFORE the statement — neither the statement nor any of the changes stands inside a loop (then
+        the textual order is the execution order) and every change ends on an earlier line."""
+        in_loop = set()
+        for lp in ast.walk(self.node):
+            if isinstance(lp, (ast.For, ast.While, ast.FunctionDef, ast.Lambda, ast.ListComp, ast.GeneratorExp)) \
+                    and lp is not self.node:
+                in_loop |= {id(q) for q in ast.walk(lp) if q is not lp}
+        if id(stmt) in in_loop:
+            return False
+        for m in ast.walk(self.node):
+            site = None
+            if isinstance(m, ast.Call) and isinstance(m.func, ast.Attribute) and isinstance(m.func.value, ast.Name) \
+                    and m.func.value.id in pair \
+                    and m.func.attr in ("append", "pop", "extend", "insert", "write", "sort", "reverse", "remove", "clear"):
+                site = m
+            if isinstance(m, (ast.Assign, ast.AugAssign)):
+                for t in (m.targets if isinstance(m, ast.Assign) else [m.target]):
+                    if isinstance(t, ast.Subscript) and isinstance(t.value, ast.Name) and t.value.id in pair:
+                        site = m
+            if site is not None and (id(site) in in_loop or getattr(site, "end_lineno", 10 ** 9) >= stmt.lineno):
+                return False
+        return True
+
     # ------------------------------------------------------------------
     def translate(self):
         a = self.node.args
@@ -1831,7 +2395,20 @@ class FunTr:
                 x, y = m.targets[0].id, m.value.id
                 ty = self.decl.get(y)
                 if (isinstance(ty, tuple) and ty[0] in ("list", "iter") or ty == "strbuf") and ({x, y} & mutated):
+                    if self._alias_after_mutations(m, {x, y}):
+                        continue
                     _bad("%s = %s aliases a list that is mutated in place" % (x, y), m)
+        if getattr(self.fun, "alias_state", None):
+            # (functions that opt in to alias_state) `y = self.attr` on a state attribute holding a mutable value is
+            # accepted only as a declared alias (_alias_stmt); any other such statement fails closed
+            for m in ast.walk(self.node):
+                if isinstance(m, ast.Assign) and len(m.targets) == 1 and isinstance(m.targets[0], ast.Name) \
+                        and isinstance(m.value, ast.Attribute) and ast.unparse(m.value) in self.stattr:
+                    ty = self.decl.get(self.stattr[ast.unparse(m.value)])
+                    if (ty == "strbuf" or (isinstance(ty, tuple) and ty[0] in ("list", "iter", "dict", "coq"))) \
+                            and self.fun.alias_state.get(m.targets[0].id) != ast.unparse(m.value):
+                        _bad("%s = %s: an undeclared second name of a mutable state attribute" % (
+                            m.targets[0].id, ast.unparse(m.value)), m)
         names = [x.arg for x in a.args]
         if self.fun.skip_first:
             names = names[1:]
